@@ -14,7 +14,8 @@ RULE = (
     "cases = the histories of C06 restricted to frames without overlapping droplets (lattice "
     "enumeration: occupancy histories on ring/rect lattices x {overlap, distance x cut-offs} x "
     "{no grid, periodic grid}; random and adversarial motions: uniform drift across periodic "
-    "boundaries with step < half the separation, member-order swaps, disappearances). "
+    "boundaries with step < half the separation, member-order swaps, disappearances; 30 % of the random and "
+    "a quarter of the lattice histories carry decreasing or unordered (pairwise distinct) time stamps). "
     "Non-trivial = some frame pair offers >=2 candidates (competition) or a link crosses a "
     "periodic boundary. Distinct = digest of the whole case."
 )
@@ -40,7 +41,17 @@ def plan(tier, seed):
 
 
 def gen(rng, kind, tier):
-    return c06.gen(rng, kind, tier)
+    h = c06.gen(rng, kind, tier)
+    if h is not None and len(h["times"]) >= 2 and rng.random() < 0.3:
+        # the statement speaks about consecutive frames of any time course: the time stamps need
+        # not increase (e.g. a reversed course); they stay pairwise distinct
+        if rng.random() < 0.5:
+            h["times"] = h["times"][::-1]
+            h["time_order"] = "decreasing"
+        else:
+            h["times"] = [h["times"][i] for i in rng.permutation(len(h["times"]))]
+            h["time_order"] = "unordered"
+    return h
 
 
 def run(case, rec):
